@@ -77,8 +77,9 @@ res['checks'] = det
 detected = [pr for pr, d in det.items() if d['exit'] == 1]
 dst = f'/verif/seeded/{sid}'
 os.makedirs(dst, exist_ok=True)
-shutil.copy(f'{src}/patch.diff', dst)
-shutil.copy(f'{src}/demo_test.go', dst)
+if os.path.abspath(src) != os.path.abspath(dst):
+    shutil.copy(f'{src}/patch.diff', dst)
+    shutil.copy(f'{src}/demo_test.go', dst)
 meta['confirmed_by_me'] = res
 rules = []
 for pr in [x for x in detected if x == prop]:
